@@ -199,6 +199,49 @@ func Eq(a, b Term) Term {
 
 func Ne(a, b Term) Term { return Not(Eq(a, b)) }
 
+// splitApp splits the text of a binary application "(op x y)" into x and y.
+func splitApp(s, op string) (string, string, bool) {
+	pre := "(" + op + " "
+	if !strings.HasPrefix(s, pre) || !strings.HasSuffix(s, ")") {
+		return "", "", false
+	}
+	body := s[len(pre) : len(s)-1]
+	depth := 0
+	cut := -1
+	for i := 0; i < len(body); i++ {
+		switch body[i] {
+		case '(':
+			depth++
+		case ')':
+			depth--
+			if depth < 0 {
+				return "", "", false
+			}
+		case ' ':
+			if depth == 0 {
+				if cut >= 0 {
+					return "", "", false // more than two arguments
+				}
+				cut = i
+			}
+		}
+	}
+	if cut <= 0 || depth != 0 {
+		return "", "", false
+	}
+	return body[:cut], body[cut+1:], true
+}
+
+// termOfText rebuilds a term from its text (recognising bit-vector literals).
+func termOfText(s string, sort Sort) Term {
+	var v uint64
+	var w int
+	if n, _ := fmt.Sscanf(s, "(_ bv%d %d)", &v, &w); n == 2 && sort.IsBV() && w == sort.Width() {
+		return BVLit(v, w)
+	}
+	return Term{S: s, Sort: sort}
+}
+
 // BVBin applies a binary bit-vector operator with constant folding.
 func BVBin(op string, a, b Term) Term {
 	w := a.Sort.Width()
@@ -242,12 +285,34 @@ func BVBin(op string, a, b Term) Term {
 	}
 	// identities
 	switch op {
+	case "bvsub":
+		// x - (x - y) = y ; (x + y) - y = x ; (x + y) - x = y   (modular arithmetic)
+		if p, q, ok := splitApp(b.S, "bvsub"); ok && p == a.S {
+			return termOfText(q, a.Sort)
+		}
+		if p, q, ok := splitApp(a.S, "bvadd"); ok {
+			if q == b.S {
+				return termOfText(p, a.Sort)
+			}
+			if p == b.S {
+				return termOfText(q, a.Sort)
+			}
+		}
+	}
+	switch op {
 	case "bvadd":
 		if a.IsC && a.C == 0 {
 			return b
 		}
 		if b.IsC && b.C == 0 {
 			return a
+		}
+		// (x - y) + y = x ; y + (x - y) = x
+		if p, q, ok := splitApp(a.S, "bvsub"); ok && q == b.S {
+			return termOfText(p, a.Sort)
+		}
+		if p, q, ok := splitApp(b.S, "bvsub"); ok && q == a.S {
+			return termOfText(p, a.Sort)
 		}
 	case "bvsub", "bvshl", "bvlshr", "bvashr", "bvor", "bvxor":
 		if b.IsC && b.C == 0 {
